@@ -94,4 +94,4 @@ def run(run, P):
             n += 1
             run.instance('R-FRESH-LABEL', '%s: %s read only after it was stepped (%s)' % (name, fld, txt))
         solve(f, Env(), on_event, None, keys, R, key_fn=lambda e: tuple(sorted(k for k in e.ts if k.startswith('s:'))))
-    run.require(n >= 1 or run.fixture_mode or run.cfg != 'base', 'R-FRESH-LABEL: no plain read of a label counter found (expected coap_add_data_large_internal: etag = context->etag)')
+    run.require_count(n >= 1 or run.fixture_mode or run.cfg != 'base', 'R-FRESH-LABEL: no plain read of a label counter found (expected coap_add_data_large_internal: etag = context->etag)')
